@@ -265,3 +265,184 @@ order (the behaviour before the repair of `TuplePrior`) does not -/
 example : "p_10" < "p_2" := by decide
 
 end AF.C01
+
+namespace AF.C01
+open AF
+
+variable {V : Type}
+
+/-- the path advertised for a parameter by `unique_prior_paths` is one of its places -/
+theorem lastPlace_is_place (w : List (Path × Nat)) (id : Nat) (h : id ∈ w.map (·.2)) :
+    ∃ p, lastPlace w id = some p ∧ (p, id) ∈ w := by
+  obtain ⟨⟨q, j⟩, hq, hj⟩ := List.mem_map.mp h
+  simp only at hj; subst hj
+  simp only [lastPlace]
+  cases hf : List.find? (fun x => x.2 == j) w.reverse with
+  | none =>
+    have := List.find?_eq_none.mp hf (q, j) (List.mem_reverse.mpr hq)
+    simp at this
+  | some y =>
+    have hy := List.mem_of_find?_eq_some hf
+    have hyid : y.2 = j := by simpa using List.find?_some hf
+    refine ⟨y.1, rfl, ?_⟩
+    have : y = (y.1, j) := by rw [← hyid]
+    rw [← this]
+    exact List.mem_reverse.mp hy
+
+/-- **One advertised path per parameter, in parameter order**: `unique_prior_paths` has exactly
+`prior_count` entries and its i-th entry is a place of the i-th parameter. -/
+theorem unique_paths_spec (t : Node V) :
+    (uniquePaths t).length = count t ∧
+    ∀ (i : Nat) (h₁ : i < (uniquePaths t).length) (h₂ : i < count t),
+      ((uniquePaths t)[i], (uniqueIds t)[i]'h₂) ∈ walk t := by
+  have hall : ∀ id ∈ uniqueIds t, ∃ p, lastPlace (pathPriors t) id = some p ∧ (p, id) ∈ walk t := by
+    intro id hid
+    have hw : id ∈ (walk t).map (·.2) := by
+      simpa [uniqueIds, mem_sortDedup] using hid
+    have hpp : id ∈ (pathPriors t).map (·.2) := by
+      obtain ⟨x, hx, hx2⟩ := List.mem_map.mp hw
+      exact List.mem_map.mpr ⟨x, (perm_sortById (walk t)).mem_iff.mpr hx, hx2⟩
+    obtain ⟨p, hp, hm⟩ := lastPlace_is_place (pathPriors t) id hpp
+    exact ⟨p, hp, (perm_sortById (walk t)).mem_iff.mp hm⟩
+  -- generalise over the id list
+  have key : ∀ (ids : List Nat), (∀ id ∈ ids, ∃ p, lastPlace (pathPriors t) id = some p ∧ (p, id) ∈ walk t) →
+      (ids.filterMap (lastPlace (pathPriors t))).length = ids.length ∧
+      ∀ (i : Nat) (h₁ : i < (ids.filterMap (lastPlace (pathPriors t))).length) (h₂ : i < ids.length),
+        ((ids.filterMap (lastPlace (pathPriors t)))[i], ids[i]) ∈ walk t := by
+    intro ids
+    induction ids with
+    | nil => intro _; exact ⟨rfl, fun i h₁ _ => absurd h₁ (by simp)⟩
+    | cons a rest ih =>
+      intro h
+      obtain ⟨p, hp, hm⟩ := h a (by simp)
+      have ih' := ih (fun id hid => h id (List.mem_cons_of_mem _ hid))
+      refine ⟨by simp [hp, ih'.1], ?_⟩
+      intro i h₁ h₂
+      cases i with
+      | zero => simpa [List.filterMap_cons, hp] using hm
+      | succ j =>
+        have hj₂ : j < rest.length := by simpa using h₂
+        have hj₁ : j < (rest.filterMap (lastPlace (pathPriors t))).length := by rw [ih'.1]; exact hj₂
+        have := ih'.2 j hj₁ hj₂
+        simpa [List.filterMap_cons, hp] using this
+  have := key (uniqueIds t) hall
+  exact ⟨this.1, fun i h₁ h₂ => this.2 i h₁ h₂⟩
+
+end AF.C01
+
+namespace AF.C01
+open AF
+
+variable {V : Type}
+
+/- compositions without arithmetic nodes and arrays, whose non-constructor attributes are plain
+values: every advertised place is then addressable in the instance -/
+mutual
+def Plain : Node V → Prop
+  | .prior _ => True
+  | .const _ => True
+  | .opaque _ => True
+  | .model _ ctor attrs => PlainModelAttrs ctor attrs
+  | .coll attrs => PlainCollAttrs attrs
+  | .tuple attrs => PlainTupleAttrs attrs
+  | .arith _ _ _ _ => False
+  | .modif _ _ _ => False
+  | .array _ _ => False
+def PlainModelAttrs (ctor : List String) : List (String × Node V) → Prop
+  | [] => True
+  | (k, n) :: rest =>
+      (if ctor.contains k then Plain n else walk n = []) ∧ PlainModelAttrs ctor rest
+def PlainCollAttrs : List (String × Node V) → Prop
+  | [] => True
+  | (_, n) :: rest => ((∀ a, n ≠ .tuple a) ∧ Plain n) ∧ PlainCollAttrs rest
+def PlainTupleAttrs : List (String × Node V) → Prop
+  | [] => True
+  | (_, n) :: rest => ((∃ i, n = .prior i) ∨ walk n = []) ∧ PlainTupleAttrs rest
+end
+
+theorem walk_tuple_sub_leaves : ∀ (attrs : List (String × Node V)), PlainTupleAttrs attrs →
+    ∀ (p : Path) (id : Nat), (p, id) ∈ walkAttrs attrs → (p, Leaf.prior id) ∈ leavesTuple attrs
+  | [], _, _, _, h => by simp [walkAttrs] at h
+  | (k, n) :: rest, hp, p, id, h => by
+    simp only [PlainTupleAttrs] at hp
+    simp only [walkAttrs, List.mem_append, List.mem_map] at h
+    simp only [leavesTuple, List.mem_append]
+    rcases h with ⟨⟨q, j⟩, hq, heq⟩ | h
+    · left
+      rcases hp.1 with ⟨i, rfl⟩ | hw
+      · simp only [walk, List.mem_singleton, Prod.mk.injEq] at hq
+        obtain ⟨rfl, rfl⟩ := hq
+        simp only [Prod.mk.injEq] at heq
+        obtain ⟨rfl, rfl⟩ := heq
+        simp
+      · rw [hw] at hq; simp at hq
+    · right; exact walk_tuple_sub_leaves rest hp.2 p id h
+
+mutual
+theorem walk_sub_leaves : ∀ (n : Node V), Plain n → ∀ (p : Path) (id : Nat),
+    (p, id) ∈ walk n → (p, Leaf.prior id) ∈ leaves n
+  | .prior i, _, p, id, h => by
+      simp only [walk, List.mem_singleton, Prod.mk.injEq] at h
+      obtain ⟨rfl, rfl⟩ := h
+      simp [leaves]
+  | .const _, _, p, id, h => by simp [walk] at h
+  | .opaque _, _, p, id, h => by simp [walk] at h
+  | .arith _ _ _ _, hp, _, _, _ => by simp [Plain] at hp
+  | .modif _ _ _, hp, _, _, _ => by simp [Plain] at hp
+  | .array _ _, hp, _, _, _ => by simp [Plain] at hp
+  | .model _ ctor attrs, hp, p, id, h => by
+      simp only [Plain] at hp; simp only [walk] at h; simp only [leaves]
+      exact walkModel_sub_leaves ctor attrs hp p id h
+  | .coll attrs, hp, p, id, h => by
+      simp only [Plain] at hp; simp only [walk] at h; simp only [leaves]
+      exact walkColl_sub_leaves attrs hp p id h
+  | .tuple attrs, hp, p, id, h => by
+      simp only [Plain] at hp; simp only [walk] at h; simp only [leaves]
+      exact walk_tuple_sub_leaves attrs hp p id h
+theorem walkModel_sub_leaves (ctor : List String) : ∀ (attrs : List (String × Node V)),
+    PlainModelAttrs ctor attrs → ∀ (p : Path) (id : Nat),
+    (p, id) ∈ walkAttrs attrs → (p, Leaf.prior id) ∈ leavesModel ctor attrs
+  | [], _, _, _, h => by simp [walkAttrs] at h
+  | (k, n) :: rest, hp, p, id, h => by
+      simp only [PlainModelAttrs] at hp
+      simp only [walkAttrs, List.mem_append, List.mem_map] at h
+      simp only [leavesModel, List.mem_append]
+      rcases h with ⟨⟨q, j⟩, hq, heq⟩ | h
+      · left
+        simp only [Prod.mk.injEq] at heq
+        obtain ⟨rfl, rfl⟩ := heq
+        by_cases hc : ctor.contains k = true
+        · rw [if_pos hc] at hp ⊢
+          exact List.mem_map.mpr ⟨(q, Leaf.prior j), walk_sub_leaves n hp.1 q j hq, rfl⟩
+        · rw [if_neg hc] at hp
+          rw [hp.1] at hq; simp at hq
+      · right; exact walkModel_sub_leaves ctor rest hp.2 p id h
+theorem walkColl_sub_leaves : ∀ (attrs : List (String × Node V)),
+    PlainCollAttrs attrs → ∀ (p : Path) (id : Nat),
+    (p, id) ∈ walkAttrs attrs → (p, Leaf.prior id) ∈ leavesColl attrs
+  | [], _, _, _, h => by simp [walkAttrs] at h
+  | (k, n) :: rest, hp, p, id, h => by
+      simp only [PlainCollAttrs] at hp
+      simp only [walkAttrs, List.mem_append, List.mem_map] at h
+      simp only [leavesColl, List.mem_append]
+      rcases h with ⟨⟨q, j⟩, hq, heq⟩ | h
+      · left
+        simp only [Prod.mk.injEq] at heq
+        obtain ⟨rfl, rfl⟩ := heq
+        have hl := walk_sub_leaves n hp.1.2 q j hq
+        split
+        · rename_i a; exact absurd rfl (hp.1.1 a)
+        · exact List.mem_map.mpr ⟨(q, Leaf.prior j), hl, rfl⟩
+      · right; exact walkColl_sub_leaves rest hp.2 p id h
+end
+
+/-- **Placement at the advertised paths.** For a composition without arithmetic / array nodes the
+i-th value is found at *every advertised path* of the i-th parameter — in particular at the i-th
+entry of `unique_prior_paths` and at every other place sharing that parameter. -/
+theorem vector_at_every_advertised_path [Inhabited V] (ops : Ops V) (t : Node V) (v : List V) (hw : WF t)
+    (hp : Plain t) (hl : v.length = count t) (i : Nat) (hi : i < count t) (p : Path)
+    (hplace : (p, (uniqueIds t)[i]'hi) ∈ walk t) :
+    (instFromVector ops t v).at p = some (.num (v[i]'(hl ▸ hi))) :=
+  vector_placement ops t v hw hl i hi p (walk_sub_leaves t hp p _ hplace)
+
+end AF.C01
